@@ -5,8 +5,10 @@ package main
 import (
 	"bytes"
 	"crypto/x509"
+	"encoding/binary"
 	"encoding/json"
 	"fmt"
+	"github.com/theparanoids/ysshra/internal/zzverif/uagent"
 	"reflect"
 	"sort"
 	"strings"
@@ -29,6 +31,45 @@ type c02Case struct {
 	SigAlgo                                      int    `json:",omitempty"` // client-declared signature algorithm (a claim that must not influence the request)
 	HardKeyClaim, Touch2SSH                      bool   `json:",omitempty"`
 	Algos                                        []int  `json:",omitempty"` // one requested CA key algorithm per consecutive request on the same handler (default: Algo twice)
+	FailKeyAddRound                              int    `json:",omitempty"` // n>0: in the n-th request the agent refuses the insertion of the new private key (the request fails; its key pair was offered to that agent)
+}
+
+// c02Offered: every public key whose private half was ever offered to an agent in an add-identity request on the wire
+// (accepted or refused), with the request that offered it.
+var c02Offered = map[string]string{}
+
+var c02RunSeq int
+
+// c02OfferedKeys extracts the public keys of the plain (non-certificate) ECDSA identities in add-identity requests.
+func c02OfferedKeys(log []uagent.Req) (out [][]byte) {
+	for _, q := range log {
+		if q.Code != 17 && q.Code != 25 {
+			continue
+		}
+		rest := q.Body[1:]
+		var f [3][]byte
+		ok := true
+		for i := range f {
+			if len(rest) < 4 {
+				ok = false
+				break
+			}
+			n := int(binary.BigEndian.Uint32(rest))
+			if len(rest) < 4+n {
+				ok = false
+				break
+			}
+			f[i], rest = rest[4:4+n], rest[4+n:]
+		}
+		if !ok || !strings.HasPrefix(string(f[0]), "ecdsa-sha2-") || strings.Contains(string(f[0]), "cert") {
+			continue
+		}
+		out = append(out, ssh.Marshal(struct {
+			Name, Curve string
+			Key         []byte
+		}{string(f[0]), string(f[1]), f[2]}))
+	}
+	return
 }
 
 var c02SeenKeys = map[string]string{}
@@ -98,7 +139,34 @@ func c02Run(c *ev.Ctx, k c02Case) {
 		p.SignatureAlgo = x509.SignatureAlgorithm(k.SigAlgo)
 		p.Attrs.Touch2SSH = k.Touch2SSH
 		caBefore, addsBefore := len(e.ca.Reqs), len(e.ua.Ring.AddLog)
+		logBefore := len(e.ua.Log)
+		faulted := k.FailKeyAddRound == round+1
+		if faulted {
+			e.ua.Plan[logBefore+1] = uagent.FaultFailure // request 0 = the challenge, request 1 = the insertion of the new private key
+		}
 		err, esc := e.run(p, []gensign.Handler{e.handler})
+		delete(e.ua.Plan, logBefore+1)
+		offeredNow := c02OfferedKeys(e.ua.Log[logBefore:])
+		c02RunSeq++
+		runTag := fmt.Sprintf("%s (run #%d of this check)", p.TransID, c02RunSeq)
+		defer func(tid string) {
+			for _, b := range offeredNow {
+				if _, seen := c02Offered[string(b)]; !seen {
+					c02Offered[string(b)] = tid
+				}
+			}
+		}(runTag)
+		if faulted && esc == "" {
+			c.Outcome("key-insertion-refused/" + errType(err))
+			if len(e.ca.Reqs) != caBefore {
+				c.Violation("C02:signed-although-key-insertion-failed", "the agent refused the new private key, yet a request reached the CA", k)
+				return
+			}
+			for _, b := range offeredNow {
+				c02Offered[string(b)] = runTag
+			}
+			continue
+		}
 		if esc != "" {
 			c.Violation("C02:panic-escaped:"+ev.PanicSite(esc), esc, k)
 			return
@@ -180,6 +248,9 @@ func c02Run(c *ev.Ctx, k c02Case) {
 		if bytes.Equal(blob, fix.Pub(regKeyDefault()).Marshal()) {
 			bad("certifies-long-term-key", "the request certifies the user's registered long-term key")
 		}
+		if prev, was := c02Offered[string(blob)]; was && prev != runTag {
+			bad("key-offered-to-an-earlier-agent", "the certified key pair was generated for, and offered to the agent of, the earlier request "+prev+" (whose insertion was refused); that requester may hold the private key")
+		}
 		if prev, dup := c02SeenKeys[string(blob)]; dup {
 			bad("key-reused", "the certified key was already used by request "+prev)
 		}
@@ -198,7 +269,7 @@ func c02Run(c *ev.Ctx, k c02Case) {
 
 func checkC02(c *ev.Ctx) {
 	defer cleanupScratch()
-	c.Rule("real gensign.Run + regular.Handler, honest agent, recording CA; the signing request received by the CA is compared with a reference record built from server-side inputs: strings {plain, JSON metacharacters, <>&, non-ASCII, 200 chars, empty, literal JSON/HTML escape texts (\\u0026, \\\\u003c, &lt;, \\n), U+2028/2029, control characters} for login/user/host/IP/transaction id varied one field at a time and jointly; 10 login names that interact with the key-file lookup ('.pub' suffixes, dots, case) x directory layouts {<name>.pub, bare <name>, both} x CA algorithm{0,1,2,3,4,99}; 5 login names for which only near-miss key files of other users exist (other case, prefix, suffix); handler configurations: validity{1,3600,43200,315360000,2^32+43200} x every non-colliding subset (size<=3; thorough <=4) of key_identifiers keys {rsa,RSA,Ecdsa,ed25519,default,unknown,1,3,99} x algorithm; two consecutive requests per case; client-declared signature algorithm 0..17 x touch-to-SSH x requested algorithm {omitted,1,3,4} x 3 slot configurations; every sequence of 1..4 requests over 5 algorithms (3 configured, 2 not) on one long-lived handler. non-trivial = request signed and compared; distinct by case")
+	c.Rule("real gensign.Run + regular.Handler, honest agent, recording CA; the signing request received by the CA is compared with a reference record built from server-side inputs: strings {plain, JSON metacharacters, <>&, non-ASCII, 200 chars, empty, literal JSON/HTML escape texts (\\u0026, \\\\u003c, &lt;, \\n), U+2028/2029, control characters} for login/user/host/IP/transaction id varied one field at a time and jointly; 10 login names that interact with the key-file lookup ('.pub' suffixes, dots, case) x directory layouts {<name>.pub, bare <name>, both} x CA algorithm{0,1,2,3,4,99}; 5 login names for which only near-miss key files of other users exist (other case, prefix, suffix); handler configurations: validity{1,3600,43200,315360000,2^32+43200} x every non-colliding subset (size<=3; thorough <=4) of key_identifiers keys {rsa,RSA,Ecdsa,ed25519,default,unknown,1,3,99} x algorithm; two consecutive requests per case; client-declared signature algorithm 0..17 x touch-to-SSH x requested algorithm {omitted,1,3,4} x 3 slot configurations; every sequence of 1..4 requests over 5 algorithms (3 configured, 2 not) on one long-lived handler; sequences in which the agent refuses the insertion of one request's new private key (a certified key pair was never offered to an earlier requester's agent: add-identity requests are read off the wire). non-trivial = request signed and compared; distinct by case")
 	c.Assume("key_identifiers names are normalised case-insensitively or numerically (reference table in the harness)")
 	if c.ReplayCase != nil {
 		var k c02Case
@@ -349,6 +420,22 @@ func checkC02(c *ev.Ctx) {
 		k := base
 		k.LogName, k.KeyDir, k.ReqUser = ln, "nearmiss-names", "someone-else"
 		c02Run(c, k)
+		n++
+	}
+	// the agent refuses the insertion of the new private key in one request; the following requests (same handler, and a
+	// fresh handler in the same process) certify key pairs of their own
+	for _, fr := range []int{1, 2} {
+		for _, algos := range [][]int{{0, 0, 0}, {0, 1, 0}} {
+			k := base
+			k.Algos, k.FailKeyAddRound = algos, fr
+			c02Run(c, k)
+			n++
+		}
+	}
+	{
+		k := base
+		k.Algos = []int{0}
+		c02Run(c, k) // a fresh handler right after the sequences above
 		n++
 	}
 	c.Set("cases", n+1)
